@@ -534,12 +534,83 @@ var _ rpc.Resources
 
 // --- late answers and disposal (C11) ---
 
-//@ func (*Subscription).setResource
-//@   trusted
-//@   requires s != nil
+// testReady runs the ready callback exactly when no resource of its countdown is left.
+//@ func (*Subscription).testReady
+//@   requires s != nil && rcb != nil
+//@   ensures[C07] old(rcb.loading) == 0 ==> invoked() == old(invoked()) + 1
+//@   ensures[C07] old(rcb.loading) != 0 ==> invoked() == old(invoked()) && (forall x *Subscription :: x.state == old(x.state) && x.queueFlag == old(x.queueFlag)) && wsframes == old(wsframes)
+//@   safety[C15]
+
+// doneLoading: the subscription becomes ready, forgets its waiting countdowns and its throttle
+// before any callback can run, and every waiting countdown is tested exactly once.
 //@ func (*Subscription).doneLoading
-//@   trusted
 //@   requires s != nil
+//@   assumes forall k int :: 0 <= k && k < len(s.readyCallbacks) ==> s.readyCallbacks[k] != nil
+//@   ensures[C07] callcount("testReady") == old(callcount("testReady")) + old(len(s.readyCallbacks))
+//@   ensures[C07] old(len(s.readyCallbacks)) == 0 ==> s.state == stateReady && s.readyCallbacks == nil && s.throttle == nil && invoked() == old(invoked())
+//@   assert[C07] s.testReady#1: rangeidx1 == 0 ==> s.state == stateReady && s.readyCallbacks == nil && s.throttle == nil && invoked() == old(invoked())
+//@   safety[C15]
+//@   loop 1 assume forall k int :: 0 <= k && k < len(rcbs) ==> rcbs[k] != nil
+//@   loop 1 invariant callcount("testReady") == old(callcount("testReady")) + rangeidx1 && len(rcbs) == old(len(s.readyCallbacks))
+//@   loop 1 invariant rangeidx1 == 0 ==> s.state == stateReady && s.readyCallbacks == nil && s.throttle == nil && invoked() == old(invoked())
+
+// subscribeRef: a non-reference value changes nothing; a reference value gets its entry in the
+// reference table (all other entries kept); if that fails, every reference taken so far is
+// given back, the table is dropped and the error stored before the waiting countdowns are told.
+//@ func (*Subscription).subscribeRef
+//@   inline
+//@   requires s != nil && s.c != nil && predConnOK(s.c.(*wsConn))
+//@   assumes predSubsOK(s.c.(*wsConn)) && predRefsOK() && predOwnRefs(s)
+//@   assumes forall k int :: 0 <= k && k < len(s.readyCallbacks) ==> s.readyCallbacks[k] != nil
+//@   ensures[C02] result == (callcount("doneLoading") == old(callcount("doneLoading")))
+//@   ensures[C02] result && v.Type == codec.ValueTypeReference ==> has(s.refs, v.RID) && (forall a string :: old(has(s.refs, a)) ==> has(s.refs, a)) &&
+//@       predRefsOK() && predOwnRefs(s) && predSubsOK(s.c.(*wsConn))
+//@   ensures[C02] result && v.Type != codec.ValueTypeReference ==> s.refs == old(s.refs) && (forall a string :: has(s.refs, a) == old(has(s.refs, a)))
+//@   ensures[C02,C03] result ==> s.queueFlag == old(s.queueFlag) && s.err == old(s.err) && s.state == old(s.state) && s.readyCallbacks == old(s.readyCallbacks) &&
+//@       backing(s.readyCallbacks) == old(backing(s.readyCallbacks)) && wsframes == old(wsframes)
+//@   assert[C02] s.doneLoading#1: s.refs == nil && s.err != nil && reserr.predErrOK(s.err) && s.c.(*wsConn).disposing
+//@   safety[C15]
+//@   loop 1 assume ref != nil && ref.sub != nil
+
+// setModel / setCollection: events are held from the moment the snapshot is taken; unless
+// loading was ended by a failed reference, the subscription then carries exactly that snapshot
+// and version, and every reference value of the snapshot has its entry in the reference table.
+//@ func (*Subscription).setModel
+//@   requires s != nil && s.c != nil && predConnOK(s.c.(*wsConn)) && s.resourceSub != nil && s.resourceSub.e != nil
+//@   assumes predSubsOK(s.c.(*wsConn)) && predRefsOK() && predOwnRefs(s) && s.resourceSub.model != nil
+//@   assumes forall k int :: 0 <= k && k < len(s.readyCallbacks) ==> s.readyCallbacks[k] != nil
+//@   ensures[C02,C03] callcount("doneLoading") == old(callcount("doneLoading")) ==> s.model == old(s.resourceSub.model) && s.version == old(s.resourceSub.version) &&
+//@       s.queueFlag == old(s.queueFlag) | queueReasonLoading &&
+//@       (forall k string :: has(s.model.Values, k) && s.model.Values[k].Type == codec.ValueTypeReference ==> has(s.refs, s.model.Values[k].RID))
+//@   safety[C15]
+//@   loop 1 invariant callcount("doneLoading") == old(callcount("doneLoading")) && m == old(s.resourceSub.model) && version == old(s.resourceSub.version)
+//@   loop 1 invariant s.queueFlag == old(s.queueFlag) | queueReasonLoading && predSubsOK(s.c.(*wsConn)) && predRefsOK() && predOwnRefs(s)
+//@   loop 1 invariant forall k int :: 0 <= k && k < len(s.readyCallbacks) ==> s.readyCallbacks[k] != nil
+//@   loop 1 invariant forall k string :: visited1[k] && has(m.Values, k) && m.Values[k].Type == codec.ValueTypeReference ==> has(s.refs, m.Values[k].RID)
+
+//@ func (*Subscription).setCollection
+//@   requires s != nil && s.c != nil && predConnOK(s.c.(*wsConn)) && s.resourceSub != nil && s.resourceSub.e != nil
+//@   assumes predSubsOK(s.c.(*wsConn)) && predRefsOK() && predOwnRefs(s) && s.resourceSub.collection != nil
+//@   assumes forall k int :: 0 <= k && k < len(s.readyCallbacks) ==> s.readyCallbacks[k] != nil
+//@   ensures[C02,C03] callcount("doneLoading") == old(callcount("doneLoading")) ==> s.collection == old(s.resourceSub.collection) && s.version == old(s.resourceSub.version) &&
+//@       s.queueFlag == old(s.queueFlag) | queueReasonLoading &&
+//@       (forall k int :: 0 <= k && k < len(s.collection.Values) && s.collection.Values[k].Type == codec.ValueTypeReference ==> has(s.refs, s.collection.Values[k].RID))
+//@   safety[C15]
+//@   loop 1 invariant callcount("doneLoading") == old(callcount("doneLoading")) && c == old(s.resourceSub.collection) && version == old(s.resourceSub.version)
+//@   loop 1 invariant s.queueFlag == old(s.queueFlag) | queueReasonLoading && predSubsOK(s.c.(*wsConn)) && predRefsOK() && predOwnRefs(s)
+//@   loop 1 invariant forall k int :: 0 <= k && k < len(s.readyCallbacks) ==> s.readyCallbacks[k] != nil
+//@   loop 1 invariant forall k int :: 0 <= k && k < rangeidx1 && c.Values[k].Type == codec.ValueTypeReference ==> has(s.refs, c.Values[k].RID)
+
+// setResource: a resource that is neither model nor collection is an error for the subscription.
+//@ func (*Subscription).setResource
+//@   requires s != nil && s.c != nil && predConnOK(s.c.(*wsConn)) && s.resourceSub != nil && s.resourceSub.e != nil
+//@   assumes predSubsOK(s.c.(*wsConn)) && predRefsOK() && predOwnRefs(s)
+//@   assumes s.typ == rescache.TypeModel ==> s.resourceSub.model != nil
+//@   assumes s.typ == rescache.TypeCollection ==> s.resourceSub.collection != nil
+//@   assumes forall k int :: 0 <= k && k < len(s.readyCallbacks) ==> s.readyCallbacks[k] != nil
+//@   ensures[C15] old(s.typ) != rescache.TypeModel && old(s.typ) != rescache.TypeCollection ==> s.err != nil && callcount("setModel") == old(callcount("setModel")) &&
+//@       callcount("setCollection") == old(callcount("setCollection"))
+//@   safety[C15]
 
 // unsubscribeRefs gives back the indirect subscription of every referenced resource (without
 // running the collector) and forgets the references; nothing else of any subscription changes.
